@@ -34,7 +34,7 @@ ASSUMPTIONS = ["trees are well formed (built by the library or by Tree(nodes) fr
 TRUSTED = ["models: coq/theories/Tree.v TreeIdx.v TreeEval.v; check functions coq/theories/C09Check.v",
            "table translator harness/translate_symtable.py (AST of _tree.py, fail-closed)"]
 THEORIES = ["Tree", "TreeIdx", "TreeEval", "TreeProofs", "TreeProofs2", "TreeEvalProofs", "TreeCR", "TreeCRk", "C09Check",
-            "GenSymTable"]
+            "GenSymTable", "Py", "PyLemmas", "GenCode", "CodeEqC09"]
 
 IMPORTS = ("From Coq Require Import String Ascii.\nFrom Coq Require Import List Arith ZArith QArith.\n"
            "From TF Require Import Base Tree TreeIdx TreeEval C09Check.\nOpen Scope nat_scope.")
@@ -52,6 +52,8 @@ SIG_ARGS = "find_id_args_from_i:terminal-oob-write"
 
 def gen(ctx):
     TS.gen()
+    import translate_code as TC
+    TC.ensure(["find_end_subtree_from_i", "find_id_args_from_i"])
 
 
 # =========================================================================== coq literals
